@@ -73,7 +73,11 @@ func runDVSeq1(seg segment.Segment, want *model.LSeg, fields []string, order []u
 			any = true
 		}
 		if !kvEqual(got, w) {
-			return fmt.Sprintf("values: visit #%d doc %d (order %v fields %q): got %q want %q", i, d, order, fields, got, w), any
+			ord := fmt.Sprint(order)
+			if len(order) > 24 {
+				ord = fmt.Sprintf("%v ... (%d visits)", order[:24], len(order))
+			}
+			return fmt.Sprintf("values: visit #%d doc %d (order %s fields %q): got %.300q want %.300q", i, d, ord, fields, got, w), any
 		}
 	}
 	return "", any
